@@ -73,5 +73,25 @@ def standins(tier, seed):
     n = 80 if tier == 'quick' else 3000
     imp = standin.run('module-initialises', 'closed obligation decided by execution', 'import TotalDepth.DAT.DAT_parser under /venv/bin/python',
                       "import TotalDepth.DAT.DAT_parser, TotalDepth.util.bin_file_type\nprint(json.dumps({'cases': 1, 'bad': []}))\n")
-    return [imp, standin.run_script('dat-texts-and-corruptions', 'c14_dat.py', seed, n, 'bounded: DAT texts from the model in gen/dat.py, ~30 single-line corruptions and 6 fuzz lines each',
+    tab = standin.run('line-cleaning-table-all-code-points', 'complete enumeration of a finite domain (every code point), not counted as proved',
+                      'ASCII_PRINTABLE_TABLE applied to every one-character string: printable ASCII (0x20..0x7E) and the white space '
+                      'characters TAB, LF, VT, FF, CR are kept, every other character below 256 is removed',
+                      r'''
+from TotalDepth.DAT import DAT_parser
+bad = []
+cases = 0
+KEEP = set(range(0x20, 0x7F)) | {9, 10, 11, 12, 13}
+for cp in range(0x110000):
+    if 0xD800 <= cp <= 0xDFFF:
+        continue
+    cases += 1
+    got = chr(cp).translate(DAT_parser.ASCII_PRINTABLE_TABLE)
+    want = chr(cp) if (cp in KEEP or cp >= 256) else ''
+    if got != want and len(bad) < 5:
+        bad.append({'code_point': cp, 'got': got, 'want': want})
+print(json.dumps({'cases': cases, 'bad': bad}))
+if bad:
+    sys.exit(1)
+''')
+    return [imp, tab, standin.run_script('dat-texts-and-corruptions', 'c14_dat.py', seed, n, 'bounded: DAT texts from the model in gen/dat.py, ~30 single-line corruptions and 6 fuzz lines each',
                                     '%d models: 1..12 channels, 0..12 rows, both date spellings, any declaration order / separators' % n)]
